@@ -55,7 +55,8 @@ class ForLoop:
         start = e.start.value
         step = e.step.value
         stop = self.generator.get_integer(e.stop)
-        self.values = np.arange(start, stop + step, step, dtype=int)
+        # include stop itself, but never go beyond it (1:2:4 is {1, 3})
+        self.values = np.arange(start, stop + (1 if step > 0 else -1), step, dtype=int)
         self.index_variable = _new_mx(i.name)
         self.name = i.name
         self.indexed_symbols = OrderedDict()
